@@ -39,6 +39,8 @@ class Polygons(polylist.Polylist):
         creating a geometry instance.
         """
 
+        if not sources.get('VERTEX'):
+            raise DaeIncompleteError('Polygons requires vertex input')
         max_offset = max([max([input[0] for input in input_type_array])
                           for input_type_array in sources.values()
                           if len(input_type_array) > 0])
